@@ -168,6 +168,15 @@ let canon_bits (f : spec_float) : Stdlib.String.t = hex16_of_n (f_bits f)
 
 let big_fuel = lazy (nat_of_int 3000000)
 
+(* hex of all bytes written to stdout: the IoWrite chunks of the (newest-first) log, oldest first.
+   Same function as the model's [output_of], computed here because Coq's [rev] is quadratic. *)
+let hex_of_output (log : io_event list) : Stdlib.String.t =
+  let buf = Stdlib.Buffer.create 256 in
+  Stdlib.List.iter (function
+    | IoWrite b -> Stdlib.List.iter (fun x -> Stdlib.Buffer.add_string buf (Stdlib.Printf.sprintf "%02x" (int_of_n x))) b
+    | _ -> ()) (Stdlib.List.rev log);
+  if Stdlib.Buffer.length buf = 0 then "-" else Stdlib.Buffer.contents buf
+
 let run_case (fields : Stdlib.String.t list) : Stdlib.String.t =
   match fields with
   | "LEX" :: id :: src :: [] ->
@@ -251,7 +260,7 @@ let run_case (fields : Stdlib.String.t list) : Stdlib.String.t =
           | IoReadEOF -> "RE"
           | IoReadFail -> "RX"
           | IoRaise | IoSignalAt _ -> "") evs) in
-    let out = hex_of_bytes (output_of st.io) in
+    let out = hex_of_output st.io in
     let errf (e : errinfo) = Stdlib.Printf.sprintf "%d %d %s" (int_of_nat e.eline) (int_of_z e.ecol) (hex_of_bytes e.esrcline) in
     let depth = int_of_nat (frame_depth st) in
     (match res.r_outcome with
@@ -259,7 +268,10 @@ let run_case (fields : Stdlib.String.t list) : Stdlib.String.t =
        let j = match get_root_json st with
          | JsonText b -> hex_of_bytes b | JsonError -> "!" | JsonFuel -> "F" in
        Stdlib.Printf.sprintf "RES %s ok 0 0 - %s %s %d %s" id out j depth iolog
-     | OSyntax e -> Stdlib.Printf.sprintf "RES %s syntax %s %s ~ -1 %s" id (errf e) out iolog
+     | OSyntax e ->
+       (* a syntax error of the PROGRAM returns no evaluator (depth -1); one of a selector does *)
+       let d = if st.frames = [] then -1 else depth in
+       Stdlib.Printf.sprintf "RES %s syntax %s %s ~ %d %s" id (errf e) out d iolog
      | ORuntime e -> Stdlib.Printf.sprintf "RES %s runtime %s %s ~ %d %s" id (errf e) out depth iolog
      | OJson -> Stdlib.Printf.sprintf "RES %s json 0 0 - %s ~ %d %s" id out depth iolog
      | ORaw -> Stdlib.Printf.sprintf "RES %s raw 0 0 - %s ~ %d %s" id out depth iolog
@@ -274,7 +286,7 @@ let run_case (fields : Stdlib.String.t list) : Stdlib.String.t =
      | None -> Stdlib.Printf.sprintf "RES %s badcase" id
      | Some doc ->
        let r = eval_expression_api (Stdlib.Lazy.force big_fuel) (bytes_of_hex src) doc in
-       let out = hex_of_bytes (output_of r.x_state.io) in
+       let out = hex_of_output r.x_state.io in
        let errf (e : errinfo) = Stdlib.Printf.sprintf "%d %d %s" (int_of_nat e.eline) (int_of_z e.ecol) (hex_of_bytes e.esrcline) in
        (match r.x_outcome with
         | OOk ->
